@@ -23,6 +23,7 @@ EXPLANATION = (
   "function that deletes or replaces a registry entry re-points or clears the elements that reference it."
   " (STATE-alias / STATE-global) no function of the anchored modules mutates a module- or class-level container, rebinds module / class state or mutates a mutable default argument, so a result never depends on earlier calls;"
   " (INDEP) the first-child and last-child link updates are independent statements;"
+  ' (PAIR-detach) every removal clears parent, sibling links and the document of the removed child; (REG-repoint) put_region re-points the elements that used the replaced region;'
 )
 RULE_TEXT = "one instance per element kind, link-field store, guard, mutator, store site, registry writer"
 UNDECIDED = ["arbitrary call histories as such (the rules are the per-operation preconditions, not the induction)",
@@ -295,7 +296,10 @@ def run(ctx):
   ms = common.mods(ctx, ["ttconv.model", "ttconv.style_properties"]) if ctx.tier == "quick" else list(ix.modules.values())
   lint.lazy_discarded(ctx, ms, rule="LINT-a")
   nq = lint.vacuous_quantifier(ctx, ms, rule="LINT-b")
-  ctx.floor("LINT-b", "all()/any() sites", nq, 2)
+  # (no floor on the number of all() / any() sites: a loop in their place is just as good; the rule keeps a positive fixture instead)
+  from ..selfcheck import lint_b_fixture_matches
+  ctx.check(lint_b_fixture_matches(), "LINT-b", "fixture|vacuous-quantifier-is-detected", "ttverif/fixtures/lint_b.py",
+            "the rule still matches its positive fixture", "LINT-b no longer matches its positive fixture (rule broken)")
   # positive fixture for the zero-expected LINT-a rule
   from ..selfcheck import lint_a_fixture_matches
   ctx.check(lint_a_fixture_matches(), "LINT-a", "fixture|discarded-map-is-detected", "ttverif/fixtures/lint_a.py",
